@@ -75,7 +75,7 @@ fn one_cap(e: &Enc, source: Source, repl: bool, units: &[u32], cap: Option<usize
 }
 
 pub fn run(tier: Tier) -> (Stats, VioSet) {
-    let _ = tier;
+    let thorough = tier == Tier::Thorough;
     let encs = spec::all();
     // shard: (encoding, plane-ish slice)
     let mut shards: Vec<(Enc, u32, u32)> = vec![];
@@ -97,6 +97,17 @@ pub fn run(tier: Tier) -> (Stats, VioSet) {
                 for repl in [false, true] {
                     one(e, source, repl, &[c], &mut stats, &mut vios);
                 }
+            }
+            if thorough {
+                // every scalar right after a character of each kind (state transitions, readers'
+                // "after ASCII / after non-ASCII / after unmappable" paths) and right before ASCII
+                for &p in &[0x61u32, 0xE9, 0xA5, 0x3042, 0x1F4A9] {
+                    for source in [Source::Utf8, Source::Utf16] {
+                        one(e, source, false, &[p, c], &mut stats, &mut vios);
+                    }
+                }
+                one(e, Source::Utf16, true, &[0x3042, c, 0x61], &mut stats, &mut vios);
+                one(e, Source::Utf8, true, &[0xA5, c, 0x3042], &mut stats, &mut vios);
             }
         }
         if *lo == 0 {
